@@ -5,7 +5,8 @@
     src/strings.c    psf_store_string (32 slots, replacement marks -1, start/end placement, software suffix through a
                      128-byte buffer, growth of the store), psf_get_string, psf_location_string_count
     src/wavlike.c    wavlike_write_strings (LIST/INFO: id, length incl. NUL, even padding, size back-patch),
-                     wavlike_subchunk_parse (INFO part, `char buffer [2048]`), wavlike_write_bext_chunk /
+                     wavlike_subchunk_parse (INFO part; text buffer sized by the LIST chunk since the repair, `char buffer [2048]`
+                     before), wavlike_write_bext_chunk /
                      wavlike_read_bext_chunk, wavlike_write_cart_chunk / wavlike_read_cart_chunk
     src/broadcast.c  broadcast_var_set (psf_strlcpy_crlf, added line end, added history line, even size, version 2)
     src/cart.c       cart_var_set
@@ -231,50 +232,74 @@ def writeStrings (t : Strings) (location : Nat) : List Byte :=
   if locationCount t location = 0 then [] else serInfo (entriesOf t location)
 
 def INFO_BUFFER : Nat := 2048
+/-- the header cache never holds more than this (psf_bump_header_allocation) -/
+def HEADER_CAP : Nat := 100 * 1024
 
-/-- the sub-chunk loop of wavlike_subchunk_parse on the bytes that follow the LIST size field.
-    `fuel` bounds the walk (callers pass the length).  The result lists the (type, text) pairs handed to
-    psf_store_string, in file order.  An item whose padded size is ≥ 2048 or overruns the list ends the walk
-    (`goto cleanup_subchunk_parse`): every later item is dropped.  `labl`, `DISP`, `ltxt`, `note`, `exif`, `data` and a
-    zero marker end the walk as well (labl only matters for cue names, which the writer never emits). -/
-def parseItems : Nat → List Byte → List (Nat × List Byte)
+/-- the sub-chunk loop of wavlike_subchunk_parse on the bytes that follow the LIST size field, for a text buffer of `buf`
+    bytes.  `fuel` bounds the walk (callers pass the length).  The result lists the (type, text) pairs handed to
+    psf_store_string, in file order.  An item that overruns the list ends the walk (`goto cleanup_subchunk_parse`).  An item
+    whose padded size is ≥ `buf`: since the repair ("fix: one over-long LIST/INFO string made the WAV/RF64 reader drop every
+    later string", `skipLong = true`) only that item is skipped; before it the walk ended there and every later item was
+    dropped (`skipLong = false`).  `labl`, `DISP`, `ltxt`, `note`, `exif`, `data` and a zero marker end the walk as well
+    (labl: see SfModel/MetaFix.lean). -/
+def parseItemsW (buf : Nat) (skipLong : Bool) : Nat → List Byte → List (Nat × List Byte)
   | 0, _ => []
   | fuel+1, b =>
     if b.length < 4 then []
     else
       let m := b.take 4
       let b1 := b.drop 4
-      if m = mk "INFO" ∨ m = mk "adtl" then parseItems fuel b1
+      if m = mk "INFO" ∨ m = mk "adtl" then parseItemsW buf skipLong fuel b1
       else match markerType m with
         | some st =>
           let sz := ofLE (b1.take 4)
           let sz1 := sz + sz % 2
           let b2 := b1.drop 4
-          if sz1 ≥ INFO_BUFFER ∨ sz1 > b2.length then []
+          if sz1 > b2.length then []
+          else if sz1 ≥ buf then (if skipLong then parseItemsW buf skipLong fuel (b2.drop sz1) else [])
           else match st with
-            | some ty => (ty, cstr (b2.take sz1)) :: parseItems fuel (b2.drop sz1)
-            | none => parseItems fuel (b2.drop sz1)
+            | some ty => (ty, cstr (b2.take sz1)) :: parseItemsW buf skipLong fuel (b2.drop sz1)
+            | none => parseItemsW buf skipLong fuel (b2.drop sz1)
         | none =>
           if m = mk "labl" ∨ m = mk "DISP" ∨ m = mk "ltxt" ∨ m = mk "note" ∨ m = mk "exif" ∨ m = mk "data" ∨ m = [0, 0, 0, 0] then []
           else
             let sz := ofLE (b1.take 4)
             let sz1 := sz + sz % 2
             let b2 := b1.drop 4
-            if sz1 > b2.length then [] else parseItems fuel (b2.drop sz1)
+            if sz1 > b2.length then [] else parseItemsW buf skipLong fuel (b2.drop sz1)
+
+/-- the text buffer of the repaired parser ("fix: WAV/RF64 strings of 2046 bytes or more could be written but not read back"):
+    `calloc (1, SF_MAX (SF_MIN (chunk_length, 100 * 1024), 2047) + 1)` — sized by the LIST chunk, bounded by what the header
+    cache can deliver -/
+def infoBufSize (chunkLength : Nat) : Nat := max (min chunkLength HEADER_CAP) 2047 + 1
+
+/-- the current parser on the body of a LIST chunk -/
+def parseItems (fuel : Nat) (body : List Byte) : List (Nat × List Byte) := parseItemsW (infoBufSize body.length) true fuel body
+
+/-- the parser before the two repairs: `char buffer [2048]`, and a too-long item ended the walk -/
+def parseItemsOld (fuel : Nat) (body : List Byte) : List (Nat × List Byte) := parseItemsW INFO_BUFFER false fuel body
 
 /-- the parser applied to a whole `LIST` chunk as the writer lays it out (id, size, body).  A list of 8 bytes or less
-    is only logged. -/
-def parseInfo (chunk : List Byte) : List (Nat × List Byte) :=
+    is only logged.  (`body` is the declared length clamped to the bytes that are there, as the parser clamps it to the file
+    length.) -/
+def parseInfoWith (items : Nat → List Byte → List (Nat × List Byte)) (chunk : List Byte) : List (Nat × List Byte) :=
   let len := ofLE ((chunk.drop 4).take 4)
   let body := (chunk.drop 8).take len
-  if len ≤ 8 then [] else parseItems body.length body
+  if len ≤ 8 then [] else items body.length body
+
+def parseInfo (chunk : List Byte) : List (Nat × List Byte) := parseInfoWith parseItems chunk
+def parseInfoOld (chunk : List Byte) : List (Nat × List Byte) := parseInfoWith parseItemsOld chunk
 
 /-- the strings of a re-opened file: every parsed pair goes through psf_store_string in read mode -/
 def loadAll (es : List (Nat × List Byte)) : Strings :=
   es.foldl (fun t e => (store ⟨.read, false, [], []⟩ t (e.1 : Int) e.2).2) (Strings.init 0)
 
-/-- the explicit limit under which an INFO text survives: no NUL inside, and strlen + 1 rounded up to even < 2048 -/
-def infoOk (e : Nat × List Byte) : Prop := (∀ b ∈ e.2, b ≠ 0) ∧ e.2.length ≤ 2045 ∧ (infoMarker e.1).isSome
+/-- what an INFO text must be to survive: a C string (no NUL inside) of a type RIFF INFO has an id for.  No length limit
+    of its own since the repair: the limit is the header cache (`HEADER_CAP`) for the whole list. -/
+def infoOk (e : Nat × List Byte) : Prop := (∀ b ∈ e.2, b ≠ 0) ∧ (infoMarker e.1).isSome
+
+/-- the limit of the old parser: strlen + 1 rounded up to even < 2048 -/
+def infoOkOld (e : Nat × List Byte) : Prop := infoOk e ∧ e.2.length ≤ 2045
 
 /-! ## 3. psf_strlcpy_crlf / psf_strlcat and the two variable-length texts -/
 
